@@ -898,7 +898,9 @@ def hy_compile(
     if not get_expr:
         result += result.expr_as_stmt()
 
-    result.stmts = list(map(ResolveOuterVars().visit, result.stmts))
+    result.stmts = ResolveOuterVars().visit(
+        ast.Module(body=result.stmts, type_ignores=[])
+    ).body
 
     body = []
 
